@@ -195,8 +195,10 @@ class ClassProfiler(object):
             for a_features_dict in (shape_features if type(shape_features) == tuple else (shape_features,)):
                 for a_prop_key in a_features_dict:
                     for a_shape_to_remove in target_shapes:
-                        if a_shape_to_remove in a_features_dict[a_prop_key]:
-                            del a_features_dict[a_prop_key][a_shape_to_remove]
+                        # Features pointing to a shape are annotated with the name of the shape, not with its class
+                        a_shape_name = self._strategy._get_shape_name_for_a_class(a_shape_to_remove)
+                        if a_shape_name in a_features_dict[a_prop_key]:
+                            del a_features_dict[a_prop_key][a_shape_name]
         for a_shape_to_remove in target_shapes:
             if a_shape_to_remove in self._classes_shape_dict:
                 del self._classes_shape_dict[a_shape_to_remove]
